@@ -1,7 +1,7 @@
 /-
   `hydrv c18mux`, lines starting with `mgr`: runs a manager-level history of the
   correspondence harness (harness/app/internal/proxymux/zz_verif_c18mgr_test.go) on
-  Hy.Model.MuxMgr with `wake := true` (the tree with fixes/D16.patch).
+  Hy.Model.MuxMgr with `wake := false` (the code as it is).
 
   Like Hy.Drv.C18Mux this is the SCHEDULER matching "apply one stimulus, let the real
   goroutines run until all are blocked": it emits the labels of the steps they take and feeds
@@ -26,7 +26,7 @@ structure DS where
   failKeys : List Nat := []
   listens : List String := []
 
-def DS.ap (d : DS) (l : MLabel) : DS := { d with m := mstep true d.m l }
+def DS.ap (d : DS) (l : MLabel) : DS := { d with m := mstep false d.m l }
 
 def DS.mux? (d : DS) (id : Nat) : Option MuxW := d.m.muxes[id]?
 
@@ -206,7 +206,17 @@ def finish (d : DS) : String :=
     | none => d) d
   let d := settle d
   let bases := d.m.muxes.map (fun w => (if w.key = 0 then "a" else "b") ++ ":" ++ (if w.baseOpen then "o" else "c"))
-  -- finalisation 2
+  -- finalisation 2: one more connection per base listener that is still open (its client hangs
+  -- up at once): mainLoop wakes, captures afresh, sees the closed sub-listeners and releases
+  let d := (List.range d.m.muxes.length).foldl (fun d id =>
+    if (d.st id).aloop = .idle ∧ d.baseOpen id = true then
+      let c := 900 + id
+      { (d.ap (.mux id (.baseAccept c))) with payload := d.payload ++ [(c, [])], connMux := d.connMux ++ [(c, id)],
+                                              sent := d.sent ++ [c] }
+    else d) d
+  let d := settle d
+  let after := d.m.muxes.map (fun w => (if w.key = 0 then "a" else "b") ++ ":" ++ (if w.baseOpen then "o" else "c"))
+  -- finalisation 3
   let d := settle { d with hung := d.conns }
   let d := (List.range d.m.muxes.length).foldl (fun d id =>
     if (d.st id).aloop = .idle ∧ d.baseOpen id = true
@@ -216,7 +226,7 @@ def finish (d : DS) : String :=
     | some r => r.2
     | none => "blocked")
   " ".intercalate (["mgr", s!"L={C18Mux.join d.listens}", s!"A={C18Mux.join rs}"] ++ d.conns.map (showConn d)
-    ++ [s!"bases={C18Mux.join bases}"])
+    ++ [s!"bases={C18Mux.join bases}", s!"after={C18Mux.join after}"])
 
 def step (toks : List String) : String :=
   let r := toks.foldl (fun (acc : Option DS) tok => match acc with
